@@ -4,6 +4,8 @@ import (
 	"fmt"
 	"go/token"
 	"go/types"
+	"regexp"
+	"strconv"
 	"strings"
 
 	"golang.org/x/tools/go/ssa"
@@ -690,10 +692,30 @@ func capAt(leaves []*an.Leaf, n int64) (int64, bool) {
 		if l.Returns[0].S == "n" {
 			return n, true
 		}
+		// the builtins: min(n, k) / max(n, k) in either argument order
+		if m := capMinMax.FindStringSubmatch(strings.ReplaceAll(l.Returns[0].S, " ", "")); m != nil {
+			arg := func(a string) (int64, bool) {
+				if a == "n" {
+					return n, true
+				}
+				k, err := strconv.ParseInt(a, 10, 64)
+				return k, err == nil
+			}
+			a, oka := arg(m[2])
+			b, okb := arg(m[3])
+			if oka && okb {
+				if (m[1] == "min") == (a < b) {
+					return a, true
+				}
+				return b, true
+			}
+		}
 		return 0, false
 	}
 	return 0, false
 }
+
+var capMinMax = regexp.MustCompile(`^(?:call)?(min|max)\((n|-?\d+)(?::int)?,(n|-?\d+)(?::int)?\)$`)
 
 // capLowerBound: the least value capPageSize returns for negative arguments (sampled at -1 and a large
 // negative number; the table only compares with constants, so these two points cover all negative inputs
